@@ -3,6 +3,8 @@ import WireV.Emit
 import WireV.Sig
 import WireV.Names
 import WireV.NameEmit
+import WireV.Front
+import WireV.Path
 import WireV.Cmd
 import WireV.Generated.Tables
 /-! # WireV.Driver — line protocol of the unit tier (one request per line, one reply per line) -/
@@ -311,6 +313,39 @@ def runHist (toks : List Nat) : String :=
   | some (s, []) => s
   | _ => "bad-request"
 
+/-- `fields struct|fieldsof nf (=name ty prevented)… args…` where an arg is `=text` (string literal) or `?` -/
+def runFields (ws : List String) : String :=
+  match ws with
+  | mode :: nfs :: rest =>
+    let nf := nfs.toNat!
+    let ftoks := rest.take (3 * nf)
+    let atoks := rest.drop (3 * nf)
+    let rec mkF : List String → List FieldDecl
+      | a :: b :: c :: t => { name := unEq a, ty := b.toNat!, prevented := c == "1" } :: mkF t
+      | _ => []
+    let fs := mkF ftoks
+    let args := atoks.map (fun w => if w == "?" then FieldArg.other else FieldArg.str (unEq w))
+    let r := if mode == "struct" then structProviderArgs fs args else fieldsOfArgs fs args
+    match r with
+    | .ok sel => joinWith " " ("ok" :: sel.map (fun f => s!"{f.name}:{f.ty}"))
+    | .error .notString => "err notstring"
+    | .error (.notField _) => "err notfield"
+    | .error (.prevented _) => "err prevented"
+    | .error (.dup t) => s!"err dup:{t}"
+    | .error .tooMany => "err toomany"
+  | _ => "bad-request"
+
+def runPath (ws : List String) : String :=
+  match ws with
+  | ["unvendor", p] => "=" ++ unvendor (unEq p)
+  | ["iswire", p] => b2s (isWireImport (unEq p))
+  | "frame" :: rest =>
+    let rec mk : List String → List ImportEnt
+      | a :: b :: c :: t => { path := unEq a, name := unEq b, differs := c == "1" } :: mk t
+      | _ => []
+    joinWith " ; " (frameImports (mk rest))
+  | _ => "bad-request"
+
 def parseNats (ws : List String) : Option (List Nat) := ws.mapM String.toNat?
 
 def handleLine (line : String) : String :=
@@ -329,6 +364,8 @@ def handleLine (line : String) : String :=
   | "hist" :: rest => match parseNats rest with
     | some ns => runHist ns
     | none => "bad-request nat"
+  | "path" :: rest => runPath rest
+  | "fields" :: rest => runFields rest
   | "namefile" :: rest => runNameFile rest
   | "disamb" :: rest => runNames "disamb" rest
   | "export" :: rest => runNames "export" rest
